@@ -1,10 +1,9 @@
 /* PUBLIC REAL, scalar change of both sides / bounds: changeRangeReal (ISROW) / changeBoundsReal (int i, const R& lo, const R& up).
- * The code classifies with _rangeTypeReal (threshold: global `infinity`); the specification is the classification of
- * the NEW RATIONAL bounds (threshold: _rationalPosInfty = realParam(INFTY)).  REQ_INFTY restricts to the default INFTY. */
+ * The specification is the classification of the NEW RATIONAL bounds (threshold: _rationalPosInfty = realParam(INFTY)),
+ * for every admissible value of INFTY (a classification with _rangeTypeReal, threshold 1e100, fails it: fixed defect B). */
 void w_lpmod(PARAMS)
 REQ_STATE
 REQ_CONSISTENT
-REQ_INFTY
 __CPROVER_requires(0 <= i && i < DIM && FINITE(v1) && FINITE(v2))
 __CPROVER_requires(!INR(g_k, NTYPES) || v_old == TYPES[g_k])
 __CPROVER_assigns(ASSIGNS_GHOSTS, ARR(TYPES))
